@@ -132,12 +132,12 @@ func sizes(typ *types.Struct, prefix string, base int64, out []st.Field) []st.Fi
 	if len(out) == 0 {
 		return out
 	}
+	// Everything between the end of the last field and the end of the
+	// struct is padding. This includes the byte the compiler adds after a
+	// zero-size last field. Offsets are absolute, so the struct ends at
+	// base plus its size.
 	field := &out[len(out)-1]
-	if field.Size == 0 {
-		field.Size = 1
-		field.End++
-	}
-	pad := s.Sizeof(typ) - field.End
+	pad := base + s.Sizeof(typ) - field.End
 	if pad > 0 {
 		out = append(out, st.Field{
 			IsPadding: true,
